@@ -19,6 +19,7 @@ import (
 	"fmt"
 	"io"
 	"net"
+	"os"
 	"reflect"
 	"sort"
 	"strings"
@@ -184,6 +185,17 @@ func c12Sample(op kmip.Operation) kmip.OperationPayload {
 	if f := p.Elem().FieldByName("UniqueIdentifier"); f.IsValid() && f.Kind() == reflect.String {
 		f.SetString("uid")
 	}
+	if f := p.Elem().FieldByName("Attribute"); f.IsValid() && f.Type() == reflect.TypeOf(kmip.Attribute{}) {
+		f.Set(reflect.ValueOf(kmip.Attribute{AttributeName: kmip.AttributeNameContactInformation, AttributeValue: "me"}))
+	}
+	if f, g := p.Elem().FieldByName("ObjectType"), p.Elem().FieldByName("Object"); f.IsValid() && g.IsValid() {
+		secret := []byte("secret")
+		f.Set(reflect.ValueOf(kmip.ObjectTypeSecretData))
+		g.Set(reflect.ValueOf(&kmip.SecretData{SecretDataType: kmip.SecretDataTypePassword, KeyBlock: kmip.KeyBlock{
+			KeyFormatType: kmip.KeyFormatTypeRaw,
+			KeyValue:      &kmip.KeyValue{Plain: &kmip.PlainKeyValue{KeyMaterial: kmip.KeyMaterial{Bytes: &secret}}},
+		}}))
+	}
 	return p.Interface().(kmip.OperationPayload)
 }
 
@@ -204,7 +216,7 @@ func (pl c12Pl) build() kmip.OperationPayload {
 		}
 		return reflect.New(t[0]).Interface().(kmip.OperationPayload)
 	case "unknown":
-		return kmip.NewUnknownPayload(kmip.Operation(pl.Op))
+		return kmip.NewUnknownPayload(kmip.Operation(pl.Op), ttlv.Value{Tag: kmip.TagUniqueIdentifier, Value: "u"})
 	}
 	return nil
 }
@@ -459,10 +471,17 @@ func c12Remarshal(in any, out any) error {
 // ------------------------------------------------------------------ oracle helpers
 
 func c12EnumText(tag int, v uint32) []string {
+	alts := []string{fmt.Sprintf("0x%08X", v), fmt.Sprintf("0x%08x", v)}
 	if n := ttlv.EnumName(tag, v); n != "" {
-		return []string{n}
+		alts = append(alts, n)
 	}
-	return []string{fmt.Sprintf("0x%08X", v), fmt.Sprintf("0x%08x", v), fmt.Sprintf("0x%X", v), fmt.Sprintf("0x%x", v), fmt.Sprint(v)}
+	if v >= 16 {
+		alts = append(alts, fmt.Sprintf("0x%X", v), fmt.Sprintf("0x%x", v))
+	}
+	if v >= 100 {
+		alts = append(alts, fmt.Sprint(v))
+	}
+	return alts
 }
 
 func c12ContainsAny(text string, alts []string) bool {
@@ -901,6 +920,12 @@ func driveC12(c *h.Ctx) error {
 		c.Eval(key, shape != "conformant" || len(cs.Items) != 1)
 		c.Count("api:" + cs.API)
 		c.Count("mode:" + cs.Mode)
+		if cs.Mode == "wire" {
+			c.Count("wire-shape:" + shape)
+			if shape == "transport-error" && cs.Transport == "msg" && os.Getenv("C12_DEBUG") != "" {
+				fmt.Fprintln(os.Stderr, "TE", terr, key)
+			}
+		}
 		c.Count("shape:" + shape)
 		if i%1499 == 0 {
 			c.Sample(cs)
